@@ -466,6 +466,28 @@ fn lev(a: &[u8], b: &[u8]) -> u32 {
     prev[b.len()]
 }
 
+/// the distance functions on two given slices (which may be views of one buffer); the expected values are
+/// computed from owned copies
+pub fn check_dist_views(a: &[u8], b: &[u8], bound: u32) -> Result<(), Stop> {
+    let (ao, bo) = (a.to_vec(), b.to_vec());
+    let d = lev(&ao, &bo);
+    let g = distance::levenshtein(a, b);
+    ensure!(g == d, "levenshtein({:?},{:?}) = {}, expected {}", lossy(a), lossy(b), g, d);
+    let g = distance::simd::levenshtein(a, b);
+    ensure!(g == d, "simd::levenshtein({:?},{:?}) = {}, expected {}", lossy(a), lossy(b), g, d);
+    let g = distance::simd::bounded_levenshtein(a, b, bound);
+    let exp = if d <= bound { Some(d) } else { None };
+    ensure!(g == exp, "simd::bounded_levenshtein({:?},{:?},{}) = {:?}, expected {:?}", lossy(a), lossy(b), bound, g, exp);
+    if a.len() == b.len() {
+        let h = ao.iter().zip(bo.iter()).filter(|(x, y)| x != y).count() as u64;
+        let g = distance::hamming(a, b);
+        ensure!(g == h, "hamming({:?},{:?}) = {}, expected {}", lossy(a), lossy(b), g, h);
+        let g = distance::simd::hamming(a, b);
+        ensure!(g == h, "simd::hamming({:?},{:?}) = {}, expected {}", lossy(a), lossy(b), g, h);
+    }
+    Ok(())
+}
+
 pub fn check_dist(c: &DistCase) -> R {
     let (a, b): (&[u8], &[u8]) = (&c.a, &c.b);
     let d = lev(a, b);
